@@ -2,7 +2,7 @@
    Everything here is executable Gallina; no proofs. *)
 From Coq Require Import List NArith ZArith String Bool.
 Import ListNotations.
-From UV Require Import Py.Val Py.Str Py.Utf8 Py.Regex Py.UrlLib Gen.Patterns Ural.TrieDict Ural.Utils Ural.HostnameTrieSet Ural.SuffixTrie Ural.Tld Proofs.SuffixTrieFacts Py.Pct Ural.Quote Spec.C14 Gen.Tables Ural.FormatUrl Ural.InferRedirection Ural.Lru Ural.IsUrl Ural.Predicates Ural.Canonicalize Ural.Normalize.
+From UV Require Import Py.Val Py.Str Py.Utf8 Py.Regex Py.UrlLib Gen.Patterns Ural.TrieDict Ural.Utils Ural.HostnameTrieSet Ural.SuffixTrie Ural.Tld Proofs.SuffixTrieFacts Py.Pct Ural.Quote Spec.C14 Gen.Tables Ural.FormatUrl Ural.InferRedirection Ural.Lru Ural.IsUrl Ural.Predicates Ural.Canonicalize Ural.Normalize Ural.Html.
 Open Scope string_scope.
 
 Definition opt_wrap (o : option val) : val :=
@@ -520,6 +520,22 @@ Definition do_hostnames (arg : val) : val :=
   | _ => vbad
   end.
 
+(* ---------------- HTML extraction (C17) ---------------- *)
+Definition tbl_of (v : val) : list (str * str) :=
+  match v with VL l => flat_map (fun x => match x with VL [VS k; VS r] => [(k, r)] | _ => [] end) l | _ => [] end.
+
+(* arg: env unescape-table doc-as-str doc-as-bytes base canonicalize unique strip_fragment ->
+   (urls_from_html(str) urls_from_html(bytes) links(str) links(bytes)) *)
+Definition do_html (arg : val) : val :=
+  match arg with
+  | VL [ev; tv; VS doc; VS bdoc; VS base; VB c; VB u; VB sf] =>
+      let e := env_of ev in
+      let tbl := tbl_of tv in
+      VL [vres vstrs (urls_from_html_str tbl doc); vres vstrs (urls_from_html_bytes tbl true bdoc);
+          vres vstrs (links_from_html e tbl base doc c u sf); vres vstrs (links_from_html_bytes e tbl base bdoc c u sf)]
+  | _ => vbad
+  end.
+
 (* ---------------- dispatch ---------------- *)
 Definition table : list (str * (val -> val)) :=
   [ (lit "triedict", do_triedict);
@@ -545,7 +561,8 @@ Definition table : list (str * (val -> val)) :=
     (lit "canonicalize", do_canonicalize);
     (lit "normalize", do_normalize);
     (lit "fingerprint", do_fingerprint);
-    (lit "hostnames", do_hostnames) ].
+    (lit "hostnames", do_hostnames);
+    (lit "html", do_html) ].
 
 Fixpoint find_fn (name : str) (l : list (str * (val -> val))) : option (val -> val) :=
   match l with
